@@ -64,6 +64,10 @@ def sym_value(name, sort, numeric="real"):
     if sort == "num":
         if numeric == "int":
             return SInt(z3.Int(name))
+        if numeric == "fp":
+            # every binary64 value incl. NaN, +-inf and -0.0
+            from vf.pysym.values import FP64
+            return SFP(z3.FP(name, FP64))
         return SReal(z3.Real(name))
     if sort == "int":
         return SInt(z3.Int(name))
